@@ -119,6 +119,17 @@ def search(chk, broken):
                 chk.failures.append(Failure('mirror', 'mirroring all wind directions does not mirror the trajectory',
                                             {'op': 'wind-mirror', 'row_ft': r1.distance >> U.Foot, 'windage': [r1.windage.raw_value, r2.windage.raw_value]}))
                 break
+        # 4b. the same laws when the user edits the ALREADY FIRED wind objects in place instead of building new ones
+        for w in ws:
+            w.direction_from = U.Radian(-w.direction_from.raw_value)
+        if [key(r) for r in fire(ws)] != [key(r) for r in m_rows]:
+            chk.failures.append(Failure('mirror-in-place', 'wind objects already used by a shot and then mirrored IN PLACE give a trajectory different from newly built '
+                                                           'mirrored winds (stale data kept from the earlier shot)', {'op': 'wind-mirror-in-place', 'untils_ft': untils}))
+        for w in ws:
+            w.velocity = U.MPH(0)
+        if [key(r) for r in fire(ws)] != [key(r) for r in a]:
+            chk.failures.append(Failure('zero-wind-in-place', 'wind objects already used by a shot and then set to zero speed IN PLACE differ from no wind',
+                                        {'op': 'zero-wind-in-place', 'untils_ft': untils}))
         # 5. wind from the left deflects to the right; head and tail winds act in opposite senses
         v = U.MPH(rng.uniform(5, 20))
         none_ = fire([])
